@@ -2544,6 +2544,11 @@ class Model:
             except Exception as e:
                 raise ModelError(f"Error when initially flushing junction: {j}") from e
 
+        # The flush changes compartment sizes at the current time index, so source population sizes cached for it are stale
+        for pop in self.pops:
+            for par in pop.pars:
+                par._source_popsize_cache_time = None
+
     def update_pars(self) -> None:
         """
         Update parameter values
